@@ -14,10 +14,6 @@ SPEC = {
         H("c07k2::c07_k2_probe_then_event_sometimes", desc="enabled!-style probe then an event whose interest is sometimes: each layer judged by its own event verdict", sym="probe verdicts and event verdicts of both filters"),
         H("c07k2::c07_k2_probe_then_event_always", kind="finding", role="probe_then_event_cached_always", desc="enabled!-style probe rejected by a layer's filter, then an event whose interest is cached always: must reach both layers", sym="probe verdicts"),
         H("c07k2::c07_k2_global_reject_then_event", desc="a global filter layer below a per-layer-filtered layer rejects a span callsite, then an event whose interest is cached always must reach both layers; bitmap empty in between", sym="per-layer filter's verdict on the rejected callsite"),
-        H("c07k2::c07_k2_span_ff_then_event", tier="thorough", desc="span rejected by both filters (may still be made: documented latitude) then an event", sym="event verdicts"),
-        H("c07k2::c07_k2_span_tf_then_event", tier="thorough", desc="span accepted by layer 1 only: new/enter/exit/close delivered to layer 1 only; following event judged on its own", sym="event verdicts"),
-        H("c07k2::c07_k2_span_ft_then_event", tier="thorough", desc="span accepted by layer 2 only", sym="event verdicts"),
-        H("c07k2::c07_k2_span_tt_then_event", tier="thorough", desc="span accepted by both", sym="event verdicts"),
         H("c07k2::c07_k2_reach", kind="reach", desc="vacuity twin (registry level)"),
     ],
     "caps": {"quick_harness_timeout": 300, "thorough_harness_timeout": 1200, "jobs": 6, "mem_gb": 24},
@@ -26,12 +22,12 @@ SPEC = {
                   "Registry::{register_callsite, enabled, event_enabled, new_span (filter_map capture)}"],
     "sym": "filter verdict tables, callsite interests, arbitrary bitmap pre-states",
     "bounds": "2 per-layer-filtered layers over the Registry, emission sequences of length <= 2 from {event, span lifecycle, enabled!-probe}; kernel lemmas over all 64 bit positions and arbitrary u64 bitmaps",
-    "outside": "global filter layers beyond the one short-circuit shape, nested Filtered / Vec / Option / Box shapes at registry level; ctx.lookup_current()/scope() skipping filtered spans; the real macros in front (protocol transcribed from MacroCallsite::is_enabled + Dispatch::event and driven by the real register_callsite answer; macro side is C01); two stacks on two threads; 3-layer stacks; span lifecycle harnesses with an accepting layer exceed 20 GB (thorough, may be undecided)",
+    "outside": "global filter layers beyond the one short-circuit shape, nested Filtered / Vec / Option / Box shapes at registry level; ctx.lookup_current()/scope() skipping filtered spans; the real macros in front (protocol transcribed from MacroCallsite::is_enabled + Dispatch::event and driven by the real register_callsite answer; macro side is C01); two stacks on two threads; 3-layer stacks; span lifecycle (new/enter/exit/close) under per-layer filters: every attempted harness (two filtered layers, and a single filtered layer with the span verdict fixed) exceeded 32 GB in CBMC, so that clause is undecided and NOT claimed (the harness code is kept in c07k2.rs, unlisted)",
     "stubs": ["std::rt::thread_cleanup -> no-op", "core::fmt::write -> Ok(())", "HashMap::clear -> assert empty", "sharded-slab / thread_local shims", "H2 forwarders filter::__verif_filter", "FILTERING stays a real (single) thread-local"],
     "assumptions": ["symbolic filters are self-consistent (never => rejects, always => accepts)", "Registry::enabled's documented false-positive latitude is not asserted against"],
     "manifest": {
         "text": "Kernel lemmas (K1) decide for arbitrary 64-bit bitmaps that every FilterState/FilterMap/FilterId operation touches only the filter's own bits, that did_enable consumes the bit, and the interest fold; emission harnesses (K2) run the real Filtered/Layered/Registry code for two per-layer filters with symbolic verdict tables and assert that each recording layer's log is exactly its own filter's verdict and that the bitmap is empty between emissions. The stale-bit defect after an enabled! probe is reproduced and recorded.",
-        "note": "Relative to the slab shim; wrapper shapes, global filters, context lookups and 3 layers are outside; the three span-lifecycle harnesses with an accepting layer are thorough-tier attempts that may come back undecided.",
+        "note": "Relative to the slab shim; wrapper shapes, global filters, context lookups and 3 layers are outside; the span-lifecycle clause under per-layer filters is outside (undecided: out of memory).",
         "technique": "bounded model checking of the real per-layer-filter code (Kani/CBMC) from arbitrary bitmap pre-states and symbolic verdict tables",
     },
     "explanation": "",
